@@ -1050,12 +1050,24 @@ def rule_r11(ctx) -> RuleResult:
     return rr
 
 
+def rule_r12(ctx) -> RuleResult:
+    """The depth limit and the loop detector (R6, R11) read `expand_stack`.  The Lua bridge re-enters expand(); if any code
+    but the constructor and start_page rebinds the list (e.g. expand() starting from a fresh path and restoring the old one
+    afterwards), a nested expansion no longer sees the frames around it and a template cycle that passes through a Lua
+    module is never cut (seed C05-7A).  Shared with C16.R2."""
+    from ..core.report import shared
+    from . import c16
+
+    return shared(c16.rule_r2(ctx), "C05.R12", "the expansion path the recursion guards read is never rebound during a page (shared with C16.R2)",
+                  "the depth limit and the loop detector no longer see the frames of the enclosing expansion", min_instances=8)
+
+
 def run(ctx) -> list:
     cg = CallGraph(ctx.index)
     sf = SqlFacts(ctx.index)
     scope = _scope(ctx, cg)
     results = [rule_r1(ctx, cg), rule_r2(ctx, cg, scope), rule_r3(ctx), rule_r4(ctx, cg, scope), rule_r5(ctx, cg, sf),
-            rule_r6(ctx), rule_r7(ctx, cg), rule_r8(ctx, cg), rule_r9(ctx), rule_r10(ctx), rule_r11(ctx)]
+            rule_r6(ctx), rule_r7(ctx, cg), rule_r8(ctx, cg), rule_r9(ctx), rule_r10(ctx), rule_r11(ctx), rule_r12(ctx)]
     if ctx.thorough:
         from ..core.cgcheck import crosscheck
 
